@@ -13,13 +13,16 @@
 
   Size side conditions (a reply that does not fit a datagram makes the Rust code panic —
   `udp_len.try_into().unwrap()` / pnet `set_payload`; C01 excludes this by the 4096-byte capture
-  buffer and a 64-byte date text): HTTP date text ≤ 65000 bytes, DNS query ≤ 9000 bytes.
+  buffer and a 64-byte date text): HTTP response ≤ 65507 bytes — `Texts.httpFixedLen` bytes of generated
+  text (Gen/Texts.lean; at most 2000 by the kernel-checked fact `Texts.httpFixed_le`) plus the date text —,
+  DNS query ≤ 9000 bytes.
 -/
 import Masscanned.Thm.C10E2E
 import Masscanned.Thm.C03
 import Masscanned.Proofs.E2E.Frame
 import Masscanned.Proofs.E2E.Bridge
 import Masscanned.Proofs.E2E.WfCopy
+import Masscanned.Proofs.Texts.Facts
 open Masscanned
 namespace Masscanned.C10E2E
 open Masscanned.Spec Masscanned.E2E
@@ -30,7 +33,7 @@ open Masscanned.Spec Masscanned.E2E
     reply's source port must have (0 except for STUN). -/
 inductive Req (env : Env) (src dst : Ip) (sport dport : Nat) (p : Bytes) : (Bytes → Prop) → Nat → Prop
   | http (h : strictRequest p = true) (hd : ∀ b ∈ env.httpDate, b ≠ 10 ∧ b ≠ 13)
-      (hl : env.httpDate.length ≤ 65000) :
+      (hl : Texts.httpFixedLen + env.httpDate.length ≤ 65507) :
       Req env src dst sport dport p (fun a => a = httpReplyBytes env ∧ reply401Ok a = true) 0
   | ssh (h : sshAnswered p = true) : Req env src dst sport dport p (fun a => a = sshBannerExpected) 0
   | ghost (h : "Gh0st".toUTF8.toList.isPrefixOf p = true) :
@@ -208,9 +211,13 @@ example (st : Table) : ∃ r, (step C18.cfgE envD st (udp6 80 "GET / HTTP/1.1\r\
     (l4Bytes r).drop 8 = httpReplyBytes envD ∧ reply401Ok ((l4Bytes r).drop 8) = true := by
   have e : (l4Bytes (udp6 80 "GET / HTTP/1.1\r\n\r\n".toUTF8.toList)).drop 8 = "GET / HTTP/1.1\r\n\r\n".toUTF8.toList := by
     decide +kernel
+  have hfit : Texts.httpFixedLen + envD.httpDate.length ≤ 65507 := by
+    have := Texts.httpFixed_le
+    have : envD.httpDate.length = 31 := by decide +kernel
+    omega
   exact udp_request_e2e true (cfg := C18.cfgE) (env := envD)
     (f := udp6 80 "GET / HTTP/1.1\r\n\r\n".toUTF8.toList) (by decide) (by decide +kernel)
-    (by rw [e]; exact Req.http (env := envD) (by decide +kernel) (by decide +kernel) (by decide +kernel))
+    (by rw [e]; exact Req.http (env := envD) (by decide +kernel) (by decide +kernel) hfit)
 
 -- IPv4, DNS IN/A query (`C14.q1`): completes no signature, answered by the fallback
 example : deliverable C18.cfgE (udp4 53 C14.q1) false 17 8 = true ∧
